@@ -12,8 +12,9 @@ VARIABLES n, x, ntok
 
 Tr == ndJsonDeserialize(IOEnv.TRACE_FILE)
 P == INSTANCE Pretty WITH Inputs <- <<>>, k <- 0, index <- 0, indent <- 0, out <- <<>>
-\* constant-level: abstracted once
-AbsTr == [j \in 1..Len(Tr) |-> P!Abs(Tr[j].s)]
+\* constant-level, abstracted once; SubSeq forces TLC to build explicit tuples (a function
+\* expression stays lazy and would be re-evaluated at every Len / application)
+AbsTr == SubSeq([j \in 1..Len(Tr) |-> SubSeq(P!Abs(Tr[j].s), 1, Len(Tr[j].s))], 1, Len(Tr))
 
 Init == n \in 1..Len(Tr) /\ x = 0 /\ ntok = 0
 Next == /\ x >= 0 /\ x < Len(AbsTr[n])
